@@ -11,8 +11,8 @@ EXTENDS ShardFormat, Json, IOUtils
 
 Cases == ndJsonDeserialize(IOEnv.TRACE_FILE)
 
-VARIABLE tid
-vars == <<tid>>
+VARIABLES tid, done      \* done: verdicts are computed on successor states (all workers)
+vars == <<tid, done>>
 
 FirstBad(seq) ==
   IF \E i \in 1..Len(seq) : seq[i] # "ok"
@@ -52,10 +52,11 @@ C05Clause(c) ==
 
 Clause(c) == IF c.mode = "C04" THEN C04Clause(c) ELSE C05Clause(c)
 
-Init == tid \in 1..Len(Cases)
-Next == UNCHANGED tid
+Init == tid \in 1..Len(Cases) /\ done = FALSE
+Next == ~done /\ done' = TRUE /\ UNCHANGED tid
 Spec == Init /\ [][Next]_vars
 
-Emit == LET cl == Clause(Cases[tid]) IN
+Emit == done =>
+        LET cl == Clause(Cases[tid]) IN
         PrintT(<<"VERDICT", tid, IF cl = "ok" THEN "ok" ELSE "bad", cl, 0>>)
 =============================================================================
